@@ -110,6 +110,7 @@ func (w *World) Exec(op *Op) sched.Outcome {
 		return sched.Outcome{Err: ErrSkipped}
 	}
 	a := w.Actors[op.Actor]
+	w.pendingAtt = nil
 	var signer = -1
 	var pol *PolicySpec
 	out := a.Proc.RunOp(op.ID, func() error {
@@ -165,13 +166,43 @@ func (w *World) Exec(op *Op) sched.Outcome {
 				}
 			}
 			return err
+		case "commit": // `git commit`: create a commit, record nothing
+			parent, ok := w.resolveCommit(op.Base, op.Ref)
+			if !ok {
+				return ErrSkipped
+			}
+			parents := []string{}
+			if parent != "" {
+				parents = append(parents, parent)
+			}
+			if op.Merge != "" {
+				m, ok := w.resolveCommit(op.Merge, "")
+				if !ok || m == "" {
+					return ErrSkipped
+				}
+				parents = append(parents, m)
+			}
+			_, err := w.MakeCommit(op.ID, parents, op.Files, op.CommitKey, fmt.Sprintf("commit %d", op.ID))
+			return err
 		case "record": // record an entry for an existing commit (op.Base) without creating one
 			target, ok := w.resolveCommit(op.Base, op.Ref)
 			if !ok || target == "" {
 				return ErrSkipped
 			}
+			old, had := w.St.GetRef(op.Ref)
+			if !op.NoMove {
+				w.St.SetRef(op.Ref, target)
+			}
 			signer = keyOrActor(op.EntryKey, a)
-			return RecordEntry(a.H, op.Ref, target, op.EntryKey)
+			err := RecordEntry(a.H, op.Ref, target, op.EntryKey)
+			if err != nil && !op.NoMove && !a.Proc.Dead {
+				if had {
+					w.St.SetRef(op.Ref, old)
+				} else {
+					w.St.DelRef(op.Ref)
+				}
+			}
+			return err
 		case "recordNoNumber":
 			target, ok := w.resolveCommit(op.Base, op.Ref)
 			if !ok || target == "" {
@@ -379,10 +410,14 @@ func (w *World) execApprove(a *Actor, op *Op) error {
 	if err != nil {
 		return err
 	}
+	next := w.Att.Clone()
+	ck := ChangeKey(ap.Ref, from, to)
 	if ap.Remove {
 		if err := atts.RemoveReferenceAuthorization(ap.Ref, from, to); err != nil {
 			return err
 		}
+		delete(next.Authorizations, ck)
+		w.pendingAtt = next
 		return atts.Commit(a.H, "remove approval", true, true)
 	}
 	if ap.App != "" {
@@ -401,6 +436,11 @@ func (w *World) execApprove(a *Actor, op *Op) error {
 		if err := atts.SetGitHubPullRequestApprovalAttestation(a.H, env, "https://github.com", int64(op.ID), ap.App, ap.Ref, from, to); err != nil {
 			return err
 		}
+		if next.Reviews[ck] == nil {
+			next.Reviews[ck] = map[string]Review{}
+		}
+		next.Reviews[ck][ap.App] = Review{SignerKey: ap.AppKey, Approvers: ap.Approvers, Dismissed: ap.Dismissed}
+		w.pendingAtt = next
 		return atts.Commit(a.H, "add code review approval", true, true)
 	}
 	// merge with an existing authorization for the same change, as the real client does
@@ -427,6 +467,13 @@ func (w *World) execApprove(a *Actor, op *Op) error {
 	if err := atts.SetReferenceAuthorization(a.H, env, ap.Ref, from, to); err != nil {
 		return err
 	}
+	if next.Authorizations[ck] == nil {
+		next.Authorizations[ck] = map[int]bool{}
+	}
+	for _, s := range ap.Signers {
+		next.Authorizations[ck][s] = true
+	}
+	w.pendingAtt = next
 	return atts.Commit(a.H, "add approval", true, true)
 }
 
